@@ -122,6 +122,60 @@ where
             self.dense_segs,
         )
     }
+
+    /// Mode 1 sampling: report every pending `t_eval` point that is not beyond `x`, where `x` is
+    /// the end of the accepted step or a terminal event inside it (`y` is the state at `x`).
+    fn sample_t_eval(
+        &mut self,
+        xold: Float,
+        x: Float,
+        y: &[Float],
+        interpolant: Option<&StepInterpolant<'_>>,
+    ) {
+        if let Some(t_eval) = self.t_eval.as_ref() {
+            // Interpolate solution at each requested time within the current step interval.
+            
+            let mut i = self.next_idx;
+            
+            if (xold - x).abs() <= self.tol {
+                // Initial callback (xold == x): output at matching t_eval points
+                while i < t_eval.len() && (t_eval[i] - x).abs() <= self.tol {
+                    self.t.push(t_eval[i]);
+                    self.y.push(y.to_vec());
+                    i += 1;
+                }
+            } else {
+                // Regular accepted step: interpolate at all t_eval[i] within [xold, x] or [x, xold]
+                // Handle both forward (x > xold) and backward (x < xold) integration
+                let forward = x > xold;
+                
+                if forward {
+                    // Forward integration: t_eval[i] in (xold, x]
+                    while i < t_eval.len() && t_eval[i] <= x + self.tol {
+                        if t_eval[i] >= xold - self.tol {
+                            let mut yi = vec![0.0; y.len()];
+                            interpolant.unwrap().interpolate(t_eval[i], &mut yi);
+                            self.t.push(t_eval[i]);
+                            self.y.push(yi);
+                        }
+                        i += 1;
+                    }
+                } else {
+                    // Backward integration: t_eval is sorted decreasing, t_eval[i] in [x, xold)
+                    while i < t_eval.len() && t_eval[i] >= x - self.tol {
+                        if t_eval[i] <= xold + self.tol {
+                            let mut yi = vec![0.0; y.len()];
+                            interpolant.unwrap().interpolate(t_eval[i], &mut yi);
+                            self.t.push(t_eval[i]);
+                            self.y.push(yi);
+                        }
+                        i += 1;
+                    }
+                }
+            }
+            self.next_idx = i;
+        }
+    }
 }
 
 impl<'a, F: IVP> SolOut for DefaultSolOut<'a, F> {
@@ -314,6 +368,9 @@ impl<'a, F: IVP> SolOut for DefaultSolOut<'a, F> {
                     // Check for terminal event
                     if let Some(limit) = config.terminal_count {
                         if self.event_hits[i] >= limit {
+                            // Requested output times up to the event are still due
+                            self.sample_t_eval(xold, event_t, &event_y, interpolant);
+
                             // Add the terminal event point to the output
                             self.t.push(event_t);
                             self.y.push(event_y);
@@ -341,49 +398,9 @@ impl<'a, F: IVP> SolOut for DefaultSolOut<'a, F> {
         // Output Sampling
         // ============================================================================
         
-        if let Some(t_eval) = self.t_eval.as_ref() {
+        if self.t_eval.is_some() {
             // Mode 1: User-specified output times
-            // Interpolate solution at each requested time within the current step interval.
-            
-            let mut i = self.next_idx;
-            
-            if (xold - *x).abs() <= self.tol {
-                // Initial callback (xold == x): output at matching t_eval points
-                while i < t_eval.len() && (t_eval[i] - *x).abs() <= self.tol {
-                    self.t.push(t_eval[i]);
-                    self.y.push(y.to_vec());
-                    i += 1;
-                }
-            } else {
-                // Regular accepted step: interpolate at all t_eval[i] within [xold, x] or [x, xold]
-                // Handle both forward (x > xold) and backward (x < xold) integration
-                let forward = *x > xold;
-                
-                if forward {
-                    // Forward integration: t_eval[i] in (xold, x]
-                    while i < t_eval.len() && t_eval[i] <= *x + self.tol {
-                        if t_eval[i] >= xold - self.tol {
-                            let mut yi = vec![0.0; y.len()];
-                            interpolant.unwrap().interpolate(t_eval[i], &mut yi);
-                            self.t.push(t_eval[i]);
-                            self.y.push(yi);
-                        }
-                        i += 1;
-                    }
-                } else {
-                    // Backward integration: t_eval is sorted decreasing, t_eval[i] in [x, xold)
-                    while i < t_eval.len() && t_eval[i] >= *x - self.tol {
-                        if t_eval[i] <= xold + self.tol {
-                            let mut yi = vec![0.0; y.len()];
-                            interpolant.unwrap().interpolate(t_eval[i], &mut yi);
-                            self.t.push(t_eval[i]);
-                            self.y.push(yi);
-                        }
-                        i += 1;
-                    }
-                }
-            }
-            self.next_idx = i;
+            self.sample_t_eval(xold, *x, y, interpolant);
         } else {
             // Mode 2: Solver-selected output times
             // Record accepted step endpoints. If first_step is set, enforce that the
